@@ -97,19 +97,29 @@ pub enum FailKind {
     PrintThenDivZero,
     /// CLOSE 300                        -> 52
     BadHandle,
+    /// error while two user-function argument lists are open: Q% = FI%((FI%((1 / ZZ%))))  -> 11
+    DivZeroNestedArgs,
+    /// error while two built-in argument lists are open: Q% = LEN(STR$(1 / ZZ%))  -> 11
+    DivZeroBuiltInArgs,
 }
 
 impl FailKind {
     pub fn code(&self) -> i32 {
         match self {
-            FailKind::DivZero | FailKind::DivZeroMid | FailKind::PrintThenDivZero => 11,
+            FailKind::DivZero
+            | FailKind::DivZeroMid
+            | FailKind::PrintThenDivZero
+            | FailKind::DivZeroNestedArgs
+            | FailKind::DivZeroBuiltInArgs => 11,
             FailKind::Subscript => 9,
             FailKind::Overflow => 6,
             FailKind::IllegalCall => 5,
             FailKind::BadHandle => 52,
         }
     }
-    pub const ALL: [FailKind; 7] = [
+    pub const ALL: [FailKind; 9] = [
+        FailKind::DivZeroNestedArgs,
+        FailKind::DivZeroBuiltInArgs,
         FailKind::DivZero,
         FailKind::Subscript,
         FailKind::Overflow,
